@@ -64,6 +64,16 @@ def make_cats(ctx, seed, npatch, with_z_unk=False, suffix="", generic=False):
     return mk("ref", 30, True), mk("unk", 24, with_z_unk), mk("rand", 30, True)
 
 
+def cat_view(c):
+    """everything a loaded catalog reports through its public accessors, in the order it reports it"""
+    return (list(c.keys()), list(iter(c)), len(c), c.num_patches, bool(c.has_weights), bool(c.has_redshifts),
+            [int(x) for x in c.get_num_records()], [float(x).hex() for x in c.get_sum_weights()],
+            c.get_centers().data.tolist(), c.get_radii().data.tolist(),
+            [(k, p.meta.num_records, float(p.meta.sum_weights).hex(), p.meta.center.data.tolist(), p.meta.radius.data.tolist())
+             for k, p in c.items()],
+            [(p.meta.num_records, float(p.meta.sum_weights).hex()) for p in c.values()])
+
+
 def ppc_term(r):
     return "{| id1 := %s; id2 := %s; sw1 := %s; sw2 := %s; cnts := %s |}" % (
         fq.nat(r.id1), fq.nat(r.id2), fq.qlist(r.sum_weights1), fq.qlist(r.sum_weights2), fq.qmat(r.counts))
@@ -177,6 +187,7 @@ def run(ctx):
         base_keys = list(impl.Catalog(ref.cache_directory, max_workers=1).keys())
         base_meta = [(p.meta.num_records, float(p.meta.sum_weights).hex(), p.meta.center.data.tolist(), p.meta.radius.data.tolist())
                      for p in impl.Catalog(ref.cache_directory, max_workers=1).values()]
+        base_view = cat_view(impl.Catalog(ref.cache_directory, max_workers=1))
         workers_list = [2, npatch, npatch + 2]
         for entry in ("hist", "load", "trees", "auto", "cross"):
             ntasks = npatch if entry in ("hist", "load", "trees") else None
@@ -194,8 +205,9 @@ def run(ctx):
                         got, want = (bits(h.data), bits(h.samples)), base_hist
                     elif entry == "load":
                         c = impl.Catalog(ref.cache_directory, max_workers=w)
-                        got = (list(c.keys()), [(p.meta.num_records, float(p.meta.sum_weights).hex(), p.meta.center.data.tolist(), p.meta.radius.data.tolist()) for p in c.values()])
-                        want = (base_keys, base_meta)
+                        got = (list(c.keys()), [(p.meta.num_records, float(p.meta.sum_weights).hex(), p.meta.center.data.tolist(), p.meta.radius.data.tolist()) for p in c.values()],
+                               cat_view(c))
+                        want = (base_keys, base_meta, base_view)
                     elif entry == "trees":
                         ref.build_trees(edges, closed="right", force=True, max_workers=w)
                         got = cf_bits(yaw.autocorrelate(cfg, ref, rand, max_workers=1))
@@ -256,6 +268,9 @@ def run(ctx):
             if (bits(h.data), bits(h.samples)) != base_hist:
                 ctx.fail("c05-hist-depends-on-completion-order", "HistData.from_catalog on the real pool with %d workers differs" % w,
                          dict(workers=w), case=(rep, "real-hist", w))
+            if cat_view(impl.Catalog(ref.cache_directory, max_workers=w)) != base_view:
+                ctx.fail("c05-load-depends-on-completion-order", "Catalog(cache) loaded on the real pool with %d workers reports other values / another order "
+                         "through its accessors than the sequential load" % w, dict(workers=w), case=(rep, "real-load", w))
         # ---- real multiprocessing after an earlier sequential measurement with OTHER edges of the same
         #      bin count in this process: worker processes must not see anything stale from the parent
         edges_b = [0.1, 0.275, 0.475, 0.7]
